@@ -19,7 +19,8 @@ Inductive aggfn :=
 | FAvg (e : expr)
 | FMin (e : expr)
 | FMax (e : expr)
-| FCountDistinct (e : expr).
+| FCountDistinct (e : expr)
+| FCountDistinctN (es : list expr).      (* count(distinct e1, e2, ...): combinations in which no member is NULL *)
 
 (** first-class expressions over aggregates, e.g. sum(b) + count( * ) *)
 Inductive aexpr :=
@@ -27,7 +28,8 @@ Inductive aexpr :=
 | XLit (v : val)
 | XBin (o : binop) (a b : aexpr)
 | XNeg (a : aexpr)
-| XCoalesce (a b : aexpr).
+| XCoalesce (a b : aexpr)
+| XGroupingId (args : list expr).        (* GROUPING_ID(args); Spark's grouping_id() has no arguments = all keys *)
 
 Definition is_null (v : val) : bool := match v with VNull => true | _ => false end.
 Definition nonnull (vs : list val) : list val := filter (fun v => negb (is_null v)) vs.
@@ -64,18 +66,27 @@ Definition agg_vals (f : aggfn) (n_rows : nat) (vs : list val) : val :=
   | FMin _ => best false vs
   | FMax _ => best true vs
   | FCountDistinct _ => VInt (Z.of_nat (List.length (dedup (map (fun v => [v]) vs))))
+  | FCountDistinctN _ => VNull          (* evaluated on tuples, see [eval_aggfn] *)
   end.
 
 Definition agg_arg (f : aggfn) : option expr :=
   match f with
   | FCountStar => None
   | FCount e | FSum e | FAvg e | FMin e | FMax e | FCountDistinct e => Some e
+  | FCountDistinctN _ => None
   end.
+
+Definition all_nonnull (t : row) : bool := forallb (fun v => negb (is_null v)) t.
+Definition tuples_of (cs : list string) (rs : list row) (es : list expr) : list row :=
+  map (fun r => map (eval cs r) es) rs.
 
 (** every aggregate sees only the non-NULL values of its argument; count( * ) sees the rows *)
 Definition eval_aggfn (cs : list string) (rs : list row) (f : aggfn) : val :=
-  agg_vals f (List.length rs)
-           (match agg_arg f with Some e => nonnull (vals_of cs rs e) | None => [] end).
+  match f with
+  | FCountDistinctN es => VInt (Z.of_nat (List.length (dedup (filter all_nonnull (tuples_of cs rs es)))))
+  | _ => agg_vals f (List.length rs)
+                  (match agg_arg f with Some e => nonnull (vals_of cs rs e) | None => [] end)
+  end.
 
 Fixpoint eval_aexpr (cs : list string) (rs : list row) (x : aexpr) : val :=
   match x with
@@ -84,6 +95,7 @@ Fixpoint eval_aexpr (cs : list string) (rs : list row) (x : aexpr) : val :=
   | XBin o a b => eval_bin o (eval_aexpr cs rs a) (eval_aexpr cs rs b)
   | XNeg a => match eval_aexpr cs rs a with VInt z => VInt (- z) | _ => VNull end
   | XCoalesce a b => match eval_aexpr cs rs a with VNull => eval_aexpr cs rs b | v => v end
+  | XGroupingId _ => VNull              (* has a value only inside a grouping set: see [resolve_gid] *)
   end.
 
 (** ** What the property says about single aggregates *)
@@ -105,6 +117,36 @@ Theorem aggregates_skip_null cs rs f e :
 Proof.
   intro H. unfold eval_aggfn. rewrite H, nonnull_vals_filter.
   destruct f; try discriminate; reflexivity.
+Qed.
+
+(** count(distinct e1, .., en) skips every row in which SOME member is NULL *)
+Definition members_not_null (cs : list string) (es : list expr) (r : row) : bool := all_nonnull (map (eval cs r) es).
+Lemma filter_map_comm {A B} (p : B -> bool) (f : A -> B) l : filter p (map f l) = map f (filter (fun x => p (f x)) l).
+Proof. induction l as [|x l IH]; simpl; [reflexivity|]. destruct (p (f x)); simpl; rewrite IH; reflexivity. Qed.
+Theorem count_distinct_n_skips_null cs rs es :
+  eval_aggfn cs (filter (members_not_null cs es) rs) (FCountDistinctN es) = eval_aggfn cs rs (FCountDistinctN es)
+  /\ ((forall r, In r rs -> members_not_null cs es r = false) -> eval_aggfn cs rs (FCountDistinctN es) = VInt 0).
+Proof.
+  unfold eval_aggfn, tuples_of. split.
+  - rewrite !filter_map_comm. fold (members_not_null cs es).
+    assert (E : filter (members_not_null cs es) (filter (members_not_null cs es) rs) = filter (members_not_null cs es) rs).
+    { induction rs as [|r rs IH]; simpl; [reflexivity|].
+      destruct (members_not_null cs es r) eqn:E; simpl; [rewrite E; f_equal; exact IH | exact IH]. }
+    rewrite E. reflexivity.
+  - intro H. rewrite filter_map_comm. fold (members_not_null cs es).
+    assert (E : filter (members_not_null cs es) rs = []).
+    { induction rs as [|r rs IH]; simpl; [reflexivity|].
+      rewrite (H r) by (left; reflexivity). apply IH. intros r' Hr'. apply H. right; exact Hr'. }
+    rewrite E. reflexivity.
+Qed.
+(** with one member it is count(distinct e) *)
+Theorem count_distinct_n_one cs rs e : eval_aggfn cs rs (FCountDistinctN [e]) = eval_aggfn cs rs (FCountDistinct e).
+Proof.
+  unfold eval_aggfn, tuples_of; simpl. 
+  unfold nonnull, vals_of. rewrite (filter_map_comm _ (fun r => eval cs r e)), map_map.
+  rewrite (filter_map_comm all_nonnull).
+  rewrite (filter_ext (fun x : row => all_nonnull [eval cs x e]) (fun x => negb (is_null (eval cs x e)))); [reflexivity|].
+  intro r. unfold all_nonnull. simpl. apply andb_true_r.
 Qed.
 
 Theorem count_star_counts_rows cs rs : eval_aggfn cs rs FCountStar = VInt (Z.of_nat (List.length rs)).
@@ -303,9 +345,76 @@ Fixpoint find_expr (e : expr) (gs : list expr) : option nat :=
 Definition key_lookup (e : expr) (gs : list expr) (k : row) : val :=
   match find_expr e gs with Some i => nth i k VNull | None => VNull end.
 
+(** GROUPING_ID(args) inside grouping set [gs]: one bit per argument, first argument = most significant, set
+    when the argument is NOT grouped in this set *)
+Definition mem_expr (e : expr) (gs : list expr) : bool := existsb (expr_eqb e) gs.
+Definition gid_bits (args gs : list expr) : Z :=
+  fold_left (fun acc e => 2 * acc + (if mem_expr e gs then 0 else 1)) args 0.
+Fixpoint resolve_gid (gs : list expr) (x : aexpr) : aexpr :=
+  match x with
+  | XGroupingId args => XLit (VInt (gid_bits args gs))
+  | XBin o a b => XBin o (resolve_gid gs a) (resolve_gid gs b)
+  | XNeg a => XNeg (resolve_gid gs a)
+  | XCoalesce a b => XCoalesce (resolve_gid gs a) (resolve_gid gs b)
+  | _ => x
+  end.
+(** Spark: grouping_id() (any argument list it accepts equals the keys) is the level indicator over ALL keys *)
+Fixpoint spark_gid (all gs : list expr) (x : aexpr) : aexpr :=
+  match x with
+  | XGroupingId _ => XLit (VInt (gid_bits all gs))
+  | XBin o a b => XBin o (spark_gid all gs a) (spark_gid all gs b)
+  | XNeg a => XNeg (spark_gid all gs a)
+  | XCoalesce a b => XCoalesce (spark_gid all gs a) (spark_gid all gs b)
+  | _ => x
+  end.
+Fixpoint no_gid (x : aexpr) : bool :=
+  match x with
+  | XGroupingId _ => false
+  | XBin _ a b | XCoalesce a b => no_gid a && no_gid b
+  | XNeg a => no_gid a
+  | _ => true
+  end.
+(** sqlframe fills in the keys only when the WHOLE aggregate column is grouping_id() *)
+Definition gid_top (x : aexpr) : bool := match x with XGroupingId _ => true | _ => no_gid x end.
+(** the expansion in GroupedData.agg; [always] = the argument list is overwritten whatever it held before
+    (the Column object is the user's and may have been through an earlier agg call) *)
+Definition is_nil {A} (l : list A) : bool := match l with [] => true | _ => false end.
+Definition expand_gid (always : bool) (keys : list expr) (x : aexpr) : aexpr :=
+  match x with
+  | XGroupingId args => if always || is_nil args then XGroupingId keys else x
+  | _ => x
+  end.
+
+Lemma resolve_no_gid gs x : no_gid x = true -> resolve_gid gs x = x.
+Proof.
+  induction x; simpl; intro H; try reflexivity; try discriminate.
+  - apply andb_true_iff in H. destruct H. rewrite IHx1, IHx2; auto.
+  - rewrite IHx; auto.
+  - apply andb_true_iff in H. destruct H. rewrite IHx1, IHx2; auto.
+Qed.
+Lemma spark_no_gid all gs x : no_gid x = true -> spark_gid all gs x = x.
+Proof.
+  induction x; simpl; intro H; try reflexivity; try discriminate.
+  - apply andb_true_iff in H. destruct H. rewrite IHx1, IHx2; auto.
+  - rewrite IHx; auto.
+  - apply andb_true_iff in H. destruct H. rewrite IHx1, IHx2; auto.
+Qed.
+(** with the unconditional overwrite the expanded GROUPING_ID(keys) is Spark's grouping_id() at every level,
+    whatever argument list the Column object carried before (history independence) *)
+Lemma expand_is_spark keys gs x : gid_top x = true -> resolve_gid gs (expand_gid true keys x) = spark_gid keys gs x.
+Proof.
+  destruct x; simpl; intro H; try reflexivity.
+  - apply andb_true_iff in H. destruct H. rewrite !resolve_no_gid, !spark_no_gid; auto.
+  - rewrite resolve_no_gid, spark_no_gid; auto.
+  - apply andb_true_iff in H. destruct H. rewrite !resolve_no_gid, !spark_no_gid; auto.
+Qed.
+
 Definition sel_row (cs : list string) (gs : list expr) (k : row) (mem : list row)
            (sel : list (sitem * string)) : row :=
-  map (fun it => match fst it with SKey e => key_lookup e gs k | SAgg x => eval_aexpr cs mem x end) sel.
+  map (fun it => match fst it with
+                 | SKey e => key_lookup e gs k
+                 | SAgg x => eval_aexpr cs mem (resolve_gid gs x)
+                 end) sel.
 
 (** rows of one grouping set; the empty set is the grand total, which SQL defines as exactly one row even
     on no input (engine fact; Spark differs for cube -- see [spec_cube]) *)
@@ -349,10 +458,15 @@ Definition agg_items (aggs : list (aexpr * string)) : list (sitem * string) :=
 Definition agg_gblock (append : bool) (b : block) (keys : list (expr * string)) (aggs : list (aexpr * string)) : gblock :=
   mkG (b_where b) (GPlain (map fst keys))
       ((if append then map (fun p => (SKey (fst p), snd p)) (b_sel b) else []) ++ key_items keys ++ agg_items aggs) false.
-Definition cube_gblock (append having : bool) (sets : list (list expr)) (b : block)
+Definition expand_aggs (always : bool) (keys : list (expr * string)) (aggs : list (aexpr * string)) :=
+  map (fun p => (expand_gid always (map fst keys) (fst p), snd p)) aggs.
+Definition cube_gblock (append having gid_always : bool) (sets : list (list expr)) (b : block)
            (keys : list (expr * string)) (aggs : list (aexpr * string)) : gblock :=
   mkG (b_where b) (GSets sets)
-      ((if append then map (fun p => (SKey (fst p), snd p)) (b_sel b) else []) ++ key_items keys ++ agg_items aggs) having.
+      ((if append then map (fun p => (SKey (fst p), snd p)) (b_sel b) else []) ++ key_items keys
+       ++ agg_items (expand_aggs gid_always keys aggs)) having.
+Definition no_gids (aggs : list (aexpr * string)) : bool := forallb (fun p => no_gid (fst p)) aggs.
+Definition gids_top (aggs : list (aexpr * string)) : bool := forallb (fun p => gid_top (fst p)) aggs.
 
 Lemma expr_eqb_refl e : expr_eqb e e = true.
 Proof.
@@ -380,7 +494,7 @@ Qed.
 Lemma sel_row_keys_aggs cs ks r mem keys aggs :
   ks = map fst keys ->
   sel_row cs ks (keyvals cs ks r) mem (key_items keys ++ agg_items aggs)
-  = keyvals cs ks r ++ agg_row cs mem (map fst aggs).
+  = keyvals cs ks r ++ agg_row cs mem (map (resolve_gid ks) (map fst aggs)).
 Proof.
   intro Hk. unfold sel_row. rewrite map_app. f_equal.
   - unfold key_items. rewrite map_map. simpl. subst ks. unfold keyvals at 2. rewrite map_map.
@@ -388,19 +502,28 @@ Proof.
   - unfold agg_items, agg_row. rewrite !map_map. reflexivity.
 Qed.
 
-(** the emitted block means what PySpark means, on every frame *)
+Lemma map_resolve_no_gids gs aggs : no_gids aggs = true -> map (resolve_gid gs) (map fst aggs) = map fst aggs.
+Proof.
+  unfold no_gids. intro H. rewrite forallb_forall in H. rewrite <- (map_id (map fst aggs)) at 2.
+  apply map_ext_in. intros x Hx. apply in_map_iff in Hx. destruct Hx as [p [<- Hp]]. apply resolve_no_gid. auto.
+Qed.
+
+(** the emitted block means what PySpark means, on every frame (grouping_id() belongs to cube, not to groupBy) *)
 Theorem gblock_is_spec b keys aggs fr :
+  no_gids aggs = true ->
   eval_gblock (agg_gblock false b keys aggs) fr
   = spec_agg keys aggs (mkFrame (cols fr) (filter (all_hold (cols fr) (b_where b)) (rows fr))).
 Proof.
-  unfold eval_gblock, agg_gblock, spec_agg; simpl. f_equal.
+  intro Hng. unfold eval_gblock, agg_gblock, spec_agg; simpl. f_equal.
   - unfold agg_names, key_items, agg_items. rewrite map_app, !map_map. reflexivity.
   - set (rs := filter _ _). unfold set_rows, spec_groupby.
     destruct (map fst keys) as [|k0 ks'] eqn:Ek.
     + assert (keys = []) by (destruct keys; [reflexivity | discriminate]). subst keys. simpl.
+      rewrite <- (map_resolve_no_gids [] aggs Hng).
       unfold sel_row, agg_items, agg_row. rewrite !map_map. reflexivity.
     + apply map_ext_in. intros k Hk. apply group_keys_In in Hk. destruct Hk as [r [_ <-]].
-      rewrite <- Ek. apply sel_row_keys_aggs. reflexivity.
+      rewrite <- Ek. rewrite (sel_row_keys_aggs _ _ _ _ keys aggs eq_refl).
+      rewrite (map_resolve_no_gids _ aggs Hng). reflexivity.
 Qed.
 
 (** * cube: every sub-total level *)
@@ -500,7 +623,8 @@ Qed.
     keys outside the subset are NULL; no input rows, no output rows *)
 Definition level_rows (cs : list string) (all : list expr) (aggs : list aexpr) (rs : list row)
            (sub : list expr) : list row :=
-  map (fun k => map (fun e => key_lookup e sub k) all ++ agg_row cs (members cs sub rs k) aggs)
+  map (fun k => map (fun e => key_lookup e sub k) all
+                ++ agg_row cs (members cs sub rs k) (map (spark_gid all sub) aggs))
       (group_keys cs sub rs).
 Definition spec_cube (keys : list (expr * string)) (aggs : list (aexpr * string)) (fr : frame) : frame :=
   mkFrame (agg_names keys aggs)
@@ -512,7 +636,7 @@ Theorem cube_has_every_subtotal keys aggs fr sub r :
   In sub (powerset (map fst keys)) -> In r (rows fr) ->
   let k := keyvals (cols fr) sub r in
   In (map (fun e => key_lookup e sub k) (map fst keys)
-      ++ agg_row (cols fr) (members (cols fr) sub (rows fr) k) (map fst aggs))
+      ++ agg_row (cols fr) (members (cols fr) sub (rows fr) k) (map (spark_gid (map fst keys) sub) (map fst aggs)))
      (rows (spec_cube keys aggs fr)).
 Proof.
   intros Hs Hr k. unfold spec_cube; simpl. apply in_flat_map. exists sub. split; [exact Hs|].
@@ -522,7 +646,7 @@ Qed.
 
 Lemma sel_row_split cs gs k mem keys aggs :
   sel_row cs gs k mem (key_items keys ++ agg_items aggs)
-  = map (fun e => key_lookup e gs k) (map fst keys) ++ agg_row cs mem (map fst aggs).
+  = map (fun e => key_lookup e gs k) (map fst keys) ++ agg_row cs mem (map (resolve_gid gs) (map fst aggs)).
 Proof.
   unfold sel_row, key_items, agg_items, agg_row. rewrite map_app, !map_map. reflexivity.
 Qed.
@@ -536,13 +660,23 @@ Qed.
 Lemma members_nil cs rs : members cs [] rs [] = rs.
 Proof. unfold members. apply filter_true. reflexivity. Qed.
 
-Lemma set_rows_level cs keys aggs rs gs :
-  rs <> [] ->
-  set_rows cs (key_items keys ++ agg_items aggs) rs gs = level_rows cs (map fst keys) (map fst aggs) rs gs.
+Lemma expand_map_is_spark keys gs aggs :
+  gids_top aggs = true ->
+  map (resolve_gid gs) (map fst (expand_aggs true keys aggs)) = map (spark_gid (map fst keys) gs) (map fst aggs).
 Proof.
-  intro Hne. unfold set_rows, level_rows. destruct gs as [|g0 gs'].
-  - rewrite group_keys_nil by exact Hne. simpl. rewrite members_nil, sel_row_split. reflexivity.
-  - apply map_ext. intro k. apply sel_row_split.
+  unfold gids_top, expand_aggs. intro H. rewrite forallb_forall in H. rewrite !map_map.
+  apply map_ext_in. intros p Hp. simpl. apply expand_is_spark. auto.
+Qed.
+
+Lemma set_rows_level cs keys aggs rs gs :
+  rs <> [] -> gids_top aggs = true ->
+  set_rows cs (key_items keys ++ agg_items (expand_aggs true keys aggs)) rs gs
+  = level_rows cs (map fst keys) (map fst aggs) rs gs.
+Proof.
+  intros Hne Ht. unfold set_rows, level_rows. destruct gs as [|g0 gs'].
+  - rewrite group_keys_nil by exact Hne. simpl. rewrite members_nil, sel_row_split, expand_map_is_spark by exact Ht.
+    reflexivity.
+  - apply map_ext. intro k. rewrite sel_row_split, expand_map_is_spark by exact Ht. reflexivity.
 Qed.
 
 Lemma level_rows_nil cs all aggs sub : level_rows cs all aggs [] sub = [].
@@ -552,16 +686,16 @@ Proof. reflexivity. Qed.
     block carries HAVING COUNT( * ) > 0, otherwise whenever at least one row reaches the aggregation;
     [idxs] is the index list of sqlframe's loop *)
 Theorem cube_block_is_spec (idxs : nat -> list nat) (having : bool) b keys aggs fr :
-  (forall n, Permutation (idxs n) (seq 0 (S n))) ->
+  (forall n, Permutation (idxs n) (seq 0 (S n))) -> gids_top aggs = true ->
   let fr' := mkFrame (cols fr) (filter (all_hold (cols fr) (b_where b)) (rows fr)) in
   having = true \/ rows fr' <> [] ->
-  cols (eval_gblock (cube_gblock false having (cube_sets_with idxs (map fst keys)) b keys aggs) fr)
+  cols (eval_gblock (cube_gblock false having true (cube_sets_with idxs (map fst keys)) b keys aggs) fr)
   = cols (spec_cube keys aggs fr')
-  /\ Permutation (rows (eval_gblock (cube_gblock false having (cube_sets_with idxs (map fst keys)) b keys aggs) fr))
+  /\ Permutation (rows (eval_gblock (cube_gblock false having true (cube_sets_with idxs (map fst keys)) b keys aggs) fr))
                  (rows (spec_cube keys aggs fr')).
 Proof.
-  intros Hidx fr' Hdom. split.
-  - unfold eval_gblock, cube_gblock, spec_cube, agg_names, key_items, agg_items; simpl.
+  intros Hidx Htop fr' Hdom. split.
+  - unfold eval_gblock, cube_gblock, spec_cube, agg_names, key_items, agg_items, expand_aggs; simpl.
     rewrite map_app, !map_map. reflexivity.
   - subst fr'. unfold eval_gblock, cube_gblock, spec_cube. cbn [g_where g_group g_sel g_having rows cols] in *.
     set (rs := filter _ _) in *.
@@ -572,6 +706,6 @@ Proof.
       rewrite Hs. destruct Hdom as [->|Hne]; [simpl; constructor | congruence].
     + rewrite andb_false_r. cbn [app].
       assert (Hne : r0 :: rs' <> []) by discriminate.
-      rewrite (flat_map_ext _ _ (fun gs => set_rows_level (cols fr) keys aggs (r0 :: rs') gs Hne)).
+      rewrite (flat_map_ext _ _ (fun gs => set_rows_level (cols fr) keys aggs (r0 :: rs') gs Hne Htop)).
       apply Permutation_flat_map. apply cube_sets_with_powerset. exact Hidx.
 Qed.
